@@ -277,6 +277,11 @@ func (c *c18Checker) expectLabelled(op string, got *common.Beacon, err error) {
 		return
 	}
 	want, readable := c.ref.view(got.Round)
+	if !readable {
+		// (trimmed chained store: the previous signature is rebuilt from the preceding round, which is absent)
+		c.fail("read-succeeds-without-preceding-round/"+op, fmt.Sprintf("%s: round %d read back as %s while round %d is absent", op, got.Round, bstr(got), got.Round-1))
+		return
+	}
 	if readable && !bytes.Equal(got.PreviousSig, want.PreviousSig) {
 		c.fail("wrong-previous/"+op, fmt.Sprintf("%s round %d: want %s got %s", op, got.Round, bstr(want), bstr(got)))
 	}
